@@ -50,6 +50,9 @@ fn stmt(s: &Stmt) -> Value {
             "init": l.init.as_ref().map(|i| expr(&i.expr)),
             "else": l.init.as_ref().and_then(|i| i.diverge.as_ref().map(|(_, e)| expr(e)))}),
         Stmt::Expr(e, semi) => json!({"k":"expr","semi":semi.is_some(),"expr":expr(e)}),
+        // a `const NAME: T = EXPR;` inside a function body behaves like an immutable local
+        Stmt::Item(Item::Const(c)) => json!({"k":"let","line":0,"pat":{"k":"ident","name":c.ident.to_string(),"sub":Value::Null},
+            "init": expr(&c.expr), "else": Value::Null}),
         Stmt::Item(i) => json!({"k":"item","text":toks(i)}),
         Stmt::Macro(m) => json!({"k":"expr","semi":m.semi_token.is_some(),"expr":mac(&m.mac)}),
     }
